@@ -10,6 +10,7 @@ an applied mutant that is not detected makes the run exit 2 (checker broken) - n
 from __future__ import annotations
 
 import concurrent.futures
+import re
 import os
 import shutil
 import subprocess
@@ -69,7 +70,7 @@ def _one(prop: str, base: str, m: Dict[str, Any], baseline: set) -> Dict[str, An
         res = _run_check(prop, root)
         if m['expect'] is None:
             # negative control: a behaviour-preserving edit must not raise an alarm (new report lines)
-            new = [ln for ln in res.stdout.splitlines() if ' [' in ln and _strip(ln) not in baseline and not ln.startswith('KNOWN')]
+            new = [ln for ln in res.stdout.splitlines() if re.search(r' \[C\d\d\.\w+\]', ln) and _strip(ln) not in baseline and not ln.startswith('KNOWN')]
             if res.returncode != 2 and not new:
                 return {'id': m['id'], 'status': 'silent-ok', 'expect': None}
             return {'id': m['id'], 'status': 'FALSE-ALARM', 'expect': None, 'exit': res.returncode, 'stdout_tail': res.stdout[-600:]}
